@@ -50,7 +50,9 @@ KINDS = ("array", "image", "scalar", "optical", "series", "vector-series")
 def make_input(ctx, kind, name="x"):
     if kind == "array":
         return ctx.array(name, (2, 3)), None
-    shape = {"image": (3, 2, 2), "scalar": (3, 2), "optical": (3, 2, 3), "series": (3, 2, 2), "vector-series": (3, 2, 2, 3)}[kind]
+    shape = {"image": (3, 2, 2), "scalar": (3, 2), "optical": (3, 2, 3), "series": (3, 2, 2), "vector-series": (3, 2, 2, 3),
+             # time slices that have an axis of length one besides the time axis (a single row / column of voxels, a single component)
+             "series-col": (3, 1, 2), "series-row": (1, 3, 2), "vector-series-col": (3, 1, 2, 3), "vector1-series": (3, 2, 2, 1)}[kind]
     arr = ctx.array(name, shape, sample=(0.0, 1.0))
     d = ctx.reals("d" + name, 2, pos=True, sample=(0.5, 4.0))
     o = ctx.reals("o" + name, 2, sample=(-3.0, 3.0))
@@ -61,8 +63,10 @@ def make_input(ctx, kind, name="x"):
         img = darsia.ScalarImage(arr, **kw)
     elif kind == "optical":
         img = darsia.OpticalImage(arr, **kw)
-    elif kind == "series":
+    elif kind in ("series", "series-col", "series-row"):
         img = darsia.ScalarImage(arr, series=True, time=[0.0, 2.5], **kw)
+    elif kind == "vector1-series":
+        img = darsia.Image(arr, space_dim=2, scalar=False, series=True, time=[0.0, 2.5], **kw)
     else:
         img = darsia.OpticalImage(arr, series=True, time=[0.0, 2.5], **kw)
     return img, arr
@@ -90,7 +94,11 @@ def snapshot_meta(img):
     return m
 
 
-@ob("C10.workflow", cases=product_cases(kind=KINDS, overwrite=(False, True), variant=("plain", "crop+meta", "series-fn")), mods=MODS, funcs=FUNCS, samples=(1, 3),
+THIN_KINDS = ("series-col", "series-row", "vector-series-col", "vector1-series")
+
+
+@ob("C10.workflow", cases=product_cases(kind=KINDS, overwrite=(False, True), variant=("plain", "crop+meta", "series-fn"))
+    + [dict(kind=k, overwrite=o, variant=v) for k in THIN_KINDS for o in (False, True) for v in ("plain", "crop+meta") if not (k == "series-row" and v == "crop+meta")], mods=MODS, funcs=FUNCS, samples=(1, 3),
     cite="applying it to an image without overwrite leaves the input untouched and returns an image of the same kind whose pixel data "
          "equals the correction applied to the raw array and whose metadata is the input's plus the correction's declared updates; "
          "with overwrite it modifies and returns the very same object with the same result. On a time series the result equals applying "
